@@ -25,7 +25,7 @@ impl<T: DDNNFPtr> IteTable<T> for AllIteTable<T> {
 //%% end
 
 //%% extract src/builder/cache/all_app.rs :: impl<'a, T: DDNNFPtr<'a>> IteTable<'a, T> for AllIteTable<T> :: fn get
-//%% @rewrite 1 /r\.map\(\|v\| v\.neg\(\)\)/ => r.map(|v: &T| -> (w: T) ensures forall|env: Env| #[trigger] tr(env) ==> w.sem(env) == !v.sem(env) { v.neg() })
+//%% @rewrite ?1 /r\.map\(\|v\| v\.neg\(\)\)/ => r.map(|v: &T| -> (w: T) ensures forall|env: Env| #[trigger] tr(env) ==> w.sem(env) == !v.sem(env) { v.neg() })
 //%% @entry
         proof { axiom_clone_eq::<T>(); }
 //%% end
@@ -53,7 +53,7 @@ impl<T: DDNNFPtr> IteTable<T> for LruIteTable<T> {
 //%% end
 
 //%% extract src/builder/cache/lru_app.rs :: impl<'a, T: DDNNFPtr<'a>> IteTable<'a, T> for LruIteTable<T> :: fn get
-//%% @rewrite 1 /r\.map\(\|v\| v\.neg\(\)\)/ => r.map(|v: T| -> (w: T) ensures forall|env: Env| #[trigger] tr(env) ==> w.sem(env) == !v.sem(env) { v.neg() })
+//%% @rewrite ?1 /r\.map\(\|v\| v\.neg\(\)\)/ => r.map(|v: T| -> (w: T) ensures forall|env: Env| #[trigger] tr(env) ==> w.sem(env) == !v.sem(env) { v.neg() })
 //%% @entry
         proof { T::eq_is_sem(); }
 //%% end
